@@ -174,6 +174,7 @@ struct Machine {
 		// Data::operator== : "two containers compare equal if they share the same data" (pointer equality of the batch lists)
 		std::ostringstream ei, el;
 		for (int i = 0; i != 8; ++i) for (int j = i + 1; j != 8; ++j) {
+			if (handle(i).numberOfBatches() == 0) continue;   // (all empty containers compare equal)
 			Data<I>& xi = const_cast<DS&>(handle(i)).inputs(); Data<I> const& yi = handle(j).inputs();
 			Data<unsigned int>& xl = const_cast<DS&>(handle(i)).labels(); Data<unsigned int> const& yl = handle(j).labels();
 			if (xi == yi) ei << i << j << ",";
